@@ -156,13 +156,6 @@ Definition line_model (id : Z) (c : rcase) : string := line "M" id (run_FN c).
 Definition keyQ (ms mg : float) (s g : Q) : list Z := [].   (* the checker never looks at a cache *)
 Definition rmapQ (r : res (list float)) : res (list Q) := rmap (map Q_of_float) r.
 
-(* does the case fall under the best-case clause as the checker states it (rate energy unit = battery unit)? *)
-Definition bc_units_match (v : vehicle QN) : bool :=
-  match v with
-  | ICE _ => true
-  | BEV r _ _ bu | PHEV _ r _ _ bu => energy_eqb (energy_rate_energy_unit (pm_eru r)) bu
-  end.
-
 Definition check_case (c : rcase) (start : res (list float)) (edges : list (res (list float)))
                       (est : res (list float)) : option string :=
   let v0 := mk_vehicle QN Q_of_float keyQ (rc_veh c) in
@@ -191,7 +184,7 @@ Definition check_case (c : rcase) (start : res (list float)) (edges : list (res 
                 | Some bad => Some bad
                 | None =>
                     let hav := Q_of_float (rc_hav c) in
-                    if Qeq_bool hav 0 || negb (bc_units_match v) then None
+                    if Qeq_bool hav 0 then None
                     else match est with
                          | Ok cur =>
                              match and_all (check_estimate sv v sm hav st0 (map Q_of_float cur)) with
@@ -225,5 +218,128 @@ Definition line_check (id : Z) (c : rcase) (unjudged : bool) (start : res (list 
 Definition line_verdict (id : Z) (c : rcase) (start : res (list float)) (edges : list (res (list float)))
                         (est : res (list float)) : string :=
   line "V" id (match check_case c start edges est with None => "accept" | Some bad => "REJECT " ++ bad end).
+
+(* ------------------------------------------------------------------ several queries on ONE service instance *)
+(* every query is judged on its own (history-free): the model runs each query from scratch, the
+   implementation serves them one after the other from one EnergyModelService *)
+Definition obs := (rcase * res (list float) * list (res (list float)) * res (list float) * res (float * energy_unit))%type.
+Definition line_model_seq (id : Z) (cs : list rcase) : string := line "M" id (join " || " (map run_FN cs)).
+Fixpoint first_reject (l : list obs) (i : nat) : option string :=
+  match l with
+  | [] => None
+  | (c, start, edges, est, _) :: r =>
+      match check_case c start edges est with
+      | Some bad => Some ("q" ++ show_nat i ++ ":" ++ bad)
+      | None => first_reject r (S i)
+      end
+  end.
+Definition line_check_seq (id : Z) (l : list obs) : string :=
+  line "S" id
+    match first_reject l 0 with
+    | Some bad => "REJECT " ++ bad
+    | None => join " || " (map (fun o => let '(_, start, edges, est, bc) := o in payload start edges est bc) l)
+    end.
+
+(* ------------------------------------------------------------------ vehicles built by the configuration builders *)
+(* The predictor is the bundled random forest (not modelled): the checker judges what needs no
+   predictor -- the start charge, the charge range, the charge step against the energy the
+   implementation itself recorded (electric feature and capacity both in the configured
+   battery_capacity_unit), the PHEV switch, and the best case against best_case_energy (in every unit combination). *)
+Inductive bkind := BIce | BBev (cap : float) (bu : energy_unit) | BPhev (cap : float) (bu : energy_unit).
+Definition bobs := (bkind * qval float * res (list float) * list (res (list float)) * res (list float)
+                    * res (float * energy_unit))%type.
+
+Definition spec_start_kind (k : bkind) (q : qval Q) : res (option Q) :=
+  let in_range x := if Qle_bool 0 x && Qle_bool x 100 then Ok (Some x) else Err e_build in
+  match k, q with
+  | BIce, _ => Ok None
+  | _, QNonNumeric => Err e_build
+  | BBev _ _, QMissing => Ok (Some 100%Q)
+  | BPhev _ _, QMissing => Err e_build
+  | _, QNumber x => in_range x
+  end.
+Definition nthQ (i : nat) (l : list Q) : Q := nth i l 0%Q.
+Definition built_step (cap : Q) (prev cur : list Q) (delta_e : Q) : list (string * bool) :=
+  let s0 := nthQ 1 prev in
+  let s1 := nthQ 1 cur in
+  let u := (s0 - 100 * delta_e / cap)%Q in
+  [("soc-in-0-100", Qle_bool 0 s1 && Qle_bool s1 100);
+   ("soc-step=-100*E/capacity", near s1 (clampQ u) (100 + Qabs u)%Q)].
+Definition built_edge (k : bkind) (prev cur : list Q) : list (string * bool) :=
+  match k with
+  | BIce => [("state-shape", Nat.eqb (List.length cur) 3)]
+  | BBev cap _ => ("state-shape", Nat.eqb (List.length cur) 4)
+                  :: built_step (Q_of_float cap) prev cur (nthQ 0 cur - nthQ 0 prev)
+  | BPhev cap _ =>
+      ("state-shape", Nat.eqb (List.length cur) 5)
+      :: (if Qle_bool (nthQ 1 prev) 0
+          then ("phev-empty-no-electric", Qeq_bool (nthQ 0 cur) (nthQ 0 prev))
+          else ("phev-charged-no-liquid", Qeq_bool (nthQ 2 cur) (nthQ 2 prev)))
+      :: built_step (Q_of_float cap) prev cur (nthQ 0 cur - nthQ 0 prev)
+  end.
+Fixpoint built_route (k : bkind) (prev : list Q) (outs : list (res (list float))) (i : nat) : option string :=
+  match outs with
+  | [] => None
+  | Ok curf :: r =>
+      let cur := map Q_of_float curf in
+      match and_all (built_edge k prev cur) with
+      | Some bad => Some ("edge" ++ show_nat i ++ ":" ++ bad)
+      | None => built_route k cur r (S i)
+      end
+  | _ :: _ => Some ("edge" ++ show_nat i ++ ":unexpected-error")
+  end.
+(* best case: the electric (ICE: liquid) feature grows by best_case_energy converted into the feature's
+   unit, and the charge falls by 100 * that / capacity *)
+Definition built_estimate (k : bkind) (st0 cur : list Q) (bc : Q) (eu : energy_unit) : list (string * bool) :=
+  match k with
+  | BIce => [("best-case=ideal*distance", near3 (nthQ 0 st0) (nthQ 0 cur) bc)]
+  | BBev cap bu | BPhev cap bu =>
+      let e := (bc * k_energy eu bu)%Q in
+      ("best-case=ideal*distance(in the battery unit)", near3 (nthQ 0 st0) (nthQ 0 cur) e)
+      :: built_step (Q_of_float cap) st0 cur e
+  end.
+Definition check_built (o : bobs) : option string :=
+  let '(k, q, start, edges, est, bc) := o in
+  match spec_start_kind k (mk_query QN Q_of_float q), start with
+  | Err cl, Err cl' => if String.eqb cl cl' then None else Some "start:error-class"
+  | Err _, _ => Some "start:must-be-rejected"
+  | Ok soc, Ok st0f =>
+      let st0 := map Q_of_float st0f in
+      let start_ok := match soc with
+                      | Some s => near (nthQ 1 st0) s 100 && Qle_bool 0 (nthQ 1 st0) && Qle_bool (nthQ 1 st0) 100
+                      | None => true
+                      end in
+      if negb start_ok then Some "start:soc-is-not-the-query-value"
+      else match built_route k st0 edges 0 with
+           | Some bad => Some bad
+           | None =>
+               match est, bc with
+               | Ok curf, Ok (b, eu) =>
+                   if Nat.eqb (List.length curf) (List.length st0f) && negb (Qeq_bool (Q_of_float b) 0)
+                   then match and_all (built_estimate k st0 (map Q_of_float curf) (Q_of_float b) eu) with
+                        | Some bad => Some ("estimate:" ++ bad)
+                        | None => None
+                        end
+                   else None
+               | _, _ => Some "estimate:unexpected-error"
+               end
+           end
+  | Ok _, _ => Some "start:must-be-accepted"
+  | _, _ => Some "start:spec-crash"
+  end.
+Fixpoint first_built_reject (l : list bobs) (i : nat) : option string :=
+  match l with
+  | [] => None
+  | o :: r => match check_built o with
+              | Some bad => Some ("q" ++ show_nat i ++ ":" ++ bad)
+              | None => first_built_reject r (S i)
+              end
+  end.
+Definition line_built (id : Z) (l : list bobs) : string :=
+  line "S" id
+    match first_built_reject l 0 with
+    | Some bad => "REJECT " ++ bad
+    | None => join " || " (map (fun o => let '(_, _, start, edges, est, bc) := o in payload start edges est bc) l)
+    end.
 
 End VehicleRun.
